@@ -25,7 +25,8 @@ def content_of(path):
 def regions_for(B, fmt, fail):
     """two good regions, optionally with an element the serialiser of that format cannot handle"""
     frame = 'image' if fmt == 'fits' else 'fk5'
-    good = [mk(B, 'circle', 'g0', frame, {'text': 'a'}), mk(B, 'ellipse', 'g1', frame)]
+    # a label outside ASCII is ordinary text (region files are written in the platform's text encoding, UTF-8 here)
+    good = [mk(B, 'circle', 'g0', frame, {'text': '\u03b1 Cen'}), mk(B, 'ellipse', 'g1', frame)]
     if fail == 'bad_region_first':
         return [bad_region(B, fmt)] + good
     if fail == 'bad_region_last':
